@@ -70,6 +70,7 @@ inductive Value
   | clone (x : Var)
   | move (x : Var)
   | binop (l : Var) (op : BinOp) (r : Var)
+  | eqHost (l : Var) (ne : Bool) (r : Var)   -- `BinOp Eq/Ne` at a registered host type: stands for a call of the type's equality
   | not (x : Var)
   | neg (x : Var)
   | callRt (f : Nat) (args : List Var)
@@ -148,7 +149,8 @@ def evalValue (σ : Store) : Value → Option (Trace × Val)
   | .const v => some ([], v)
   | .clone x => some ([], σ x)
   | .move x => some ([], σ x)
-  | .binop l op r => TraceSpec.binopEv op (σ l) (σ r)   -- `Eq`/`Ne` on a host type: the type's equality, a host call
+  | .binop l op r => (TraceSpec.binop op (σ l) (σ r)).map (fun v => ([], v))
+  | .eqHost l ne r => TraceSpec.hostEq ne (σ l) (σ r)   -- the type's equality: a logged host call
   | .not x => match σ x with
     | .bool b => some ([], .bool (!b))
     | _ => none
@@ -362,6 +364,18 @@ def lowerE : Expr → Nat → Option (Code × Value × Nat)
     let xr := atvVar vr c
     let c := atvNext vr c
     pure (cl ++ ml ++ (cr ++ mr), .binop xl op xr, c)
+  | .eqH ne l r, c => do
+    -- `binop`, the `==` / `!=` paths: the same steps as the general path; the lazy `Value::BinOp` at a
+    -- host type stands for the call of the type's equality, made where the value is materialised
+    let (cl, vl, c) ← lowerE l c
+    let ml := atvCode vl c
+    let xl := atvVar vl c
+    let c := atvNext vl c
+    let (cr, vr, c) ← lowerE r c
+    let mr := atvCode vr c
+    let xr := atvVar vr c
+    let c := atvNext vr c
+    pure (cl ++ ml ++ (cr ++ mr), .eqHost xl ne xr, c)
   | .and l r, c => do
     -- `shortcircuit_binop`: the result temporary is allocated first
     let (cl, vl, c') ← lowerE l (c + 1)
